@@ -2,6 +2,7 @@ package main
 
 import (
 	"go/ast"
+	"go/constant"
 	"go/token"
 	"go/types"
 	"strings"
@@ -231,6 +232,122 @@ func runC13(c *Ctx) {
 			if !ok && bad == "" {
 				bad = exprStr(sizeExpr)
 			}
+			// … and positive: X.Round(step) is zero as soon as the step is more than twice X, and
+			// sliceRange advances by the slice size (a zero size never reaches the end)
+			{
+				var scall *ast.CallExpr
+				ast.Inspect(rq.Decl.Body, func(nd ast.Node) bool {
+					if call, isCall := nd.(*ast.CallExpr); isCall && isCallTo(info, call, "internal/promapi.sliceRange") {
+						scall = call
+					}
+					return true
+				})
+				positive := false
+				if scall != nil {
+					guards := lexicalGuards(parentMap(rq.Decl.Body), scall, rq.Decl.Body)
+					isZero := func(e ast.Expr) bool {
+						v, isC := constInt(info, e)
+						return isC && v == 0
+					}
+					var pos func(e ast.Expr, depth int) bool
+					pos = func(e ast.Expr, depth int) bool {
+						e = ast.Unparen(e)
+						if depth > 4 {
+							return false
+						}
+						if tv, has := info.Types[e]; has && tv.Value != nil {
+							return constant.Sign(tv.Value) > 0
+						}
+						if call, isCall := e.(*ast.CallExpr); isCall {
+							if id, isID := call.Fun.(*ast.Ident); isID && len(call.Args) > 0 {
+								if _, isB := info.Uses[id].(*types.Builtin); isB && (id.Name == "min" || id.Name == "max") {
+									all, some := true, false
+									for _, a := range call.Args {
+										if pos(a, depth+1) {
+											some = true
+										} else {
+											all = false
+										}
+									}
+									return id.Name == "min" && all || id.Name == "max" && some
+								}
+							}
+							return false
+						}
+						o := objOf(info, e)
+						if o == nil {
+							return false
+						}
+						for _, g := range guards {
+							be, isBin := ast.Unparen(g.E).(*ast.BinaryExpr)
+							if !isBin {
+								continue
+							}
+							op := be.Op
+							if !g.Truth {
+								switch op {
+								case token.GTR:
+									op = token.LEQ
+								case token.GEQ:
+									op = token.LSS
+								case token.LSS:
+									op = token.GEQ
+								case token.LEQ:
+									op = token.GTR
+								case token.EQL:
+									op = token.NEQ
+								case token.NEQ:
+									op = token.EQL
+								default:
+									continue
+								}
+							}
+							x, y := be.X, be.Y
+							if objOf(info, y) == o && objOf(info, x) != o {
+								// write the fact with o on the left
+								x, y = y, x
+								switch op {
+								case token.GTR:
+									op = token.LSS
+								case token.GEQ:
+									op = token.LEQ
+								case token.LSS:
+									op = token.GTR
+								case token.LEQ:
+									op = token.GEQ
+								}
+							}
+							if objOf(info, x) != o {
+								continue
+							}
+							switch {
+							case isZero(y) && (op == token.GTR || op == token.NEQ):
+								// (durations here are never negative: X.Round(step) of a positive X, a lookback)
+								return true
+							case !isZero(y) && (op == token.GTR || op == token.GEQ) && pos(y, depth+1):
+								return true
+							}
+						}
+						// every definition of the variable is positive under the same facts
+						if id, isID := e.(*ast.Ident); isID {
+							defs := allDefs(info, rq.Decl.Body, id)
+							if len(defs) == 0 {
+								return false
+							}
+							for _, d := range defs {
+								if !pos(d, depth+1) {
+									return false
+								}
+							}
+							return true
+						}
+						return false
+					}
+					positive = pos(sizeExpr, 0)
+				}
+				c.Check(positive, "C13-R2", "RangeQuery:slice size is positive where sliceRange is called", rq.Decl.Pos(), "guarded by a comparison of the size with zero (or with the step)",
+					"nothing on the way to sliceRange excludes a slice size of zero: `(2h).Round(step)` is 0 for every step above four hours, and sliceRange then appends slices of zero length forever (the range query never returns, where the unsliced evaluation answers)")
+			}
 			c.Check(ok, "C13-R2", "RangeQuery:slice size is a multiple of the step", rq.Decl.Pos(), itoa(n)+" assignment(s), all `.Round(step)` or the whole lookback", "the slice size is given by `"+bad+"`, which is not a multiple of the step: each slice restarts the step grid, so gaps next to a slice boundary appear or vanish")
 		}
 	}
@@ -281,6 +398,28 @@ func runC13(c *Ctx) {
 			})
 			c.Check(found, "C13-R2", "rangeQuery.CacheKey hashes r."+sf, ck.Decl.Pos(), "hashed", "the cache key of a slice ignores r."+sf+": a slice is answered from the cached result of a different slice (truncated or shifted ranges)")
 		}
+	}
+	// … and the upstream that answered: the members of a failover group share one cache (and one public
+	// URI), and a query retried on the next upstream must not be handed the slices of the previous one
+	if ck := c.MustFunc("C13-R2", "internal/promapi.rangeQuery.CacheKey"); ck != nil {
+		kinfo := ck.Pkg.TypesInfo
+		found := false
+		ast.Inspect(ck.Decl.Body, func(n ast.Node) bool {
+			call, ok := n.(*ast.CallExpr)
+			if !ok || !isCallTo(kinfo, call, "internal/promapi.hash") {
+				return true
+			}
+			for _, a := range call.Args {
+				ast.Inspect(a, func(m ast.Node) bool {
+					if sel, ok := m.(*ast.SelectorExpr); ok && fieldSel(kinfo, sel, "internal/promapi.Prometheus", "unsafeURI") {
+						found = true
+					}
+					return true
+				})
+			}
+			return true
+		})
+		c.Check(found, "C13-R2", "rangeQuery.CacheKey hashes the upstream's own URI", ck.Decl.Pos(), "prom.unsafeURI", "the cache key of a slice does not name the upstream that answered (its request URI): after a failover in the middle of a query the next upstream is handed slices cached from the previous one, and the merged result mixes the data of two servers")
 	}
 	// rangeQuery.Run: ExpandRangesEnd before value is published
 	if run := c.MustFunc("C13-R2", "internal/promapi.rangeQuery.Run"); run != nil {
